@@ -11,6 +11,7 @@ import (
 
 	"gbverif/ir"
 	"gbverif/locks"
+	"gbverif/own"
 )
 
 const (
@@ -31,13 +32,23 @@ const (
 )
 
 // lockAnalysis runs E1 once per process.
+// sharedLA / sharedOE: when several checks run in one process over the same loaded program (gbverif checkall) the
+// two whole-program analyses are computed once.
+var sharedLA = map[*ir.Program]*locks.Analysis{}
+var sharedOE = map[*ir.Program]*own.Eng{}
+
 func (c *Ctx) lockAnalysis() *locks.Analysis {
 	if c.la == nil {
+		if a := sharedLA[c.P]; a != nil {
+			c.la = a
+			return a
+		}
 		a := locks.New(c.P)
 		a.Roots = serverRoots(c.P)
 		a.Wrappers = []locks.Wrapper{{Fn: "(*pkg/server.BgpServer).getBestFromLocalCallback", BoolParam: "routeRefresh", Lock: lkRR}}
 		a.Run()
 		c.la = a
+		sharedLA[c.P] = a
 	}
 	return c.la
 }
